@@ -6,7 +6,7 @@ from mir_engine import MQ
 from mirlib import *
 from envlib import *
 from storelib import *
-import C11 as c11
+import replaylib as c11
 
 EXPLANATION = ("Bounded symbolic execution of the generic MIR of TrackStore::{get_store, get_executor, add_track, fetch_tracks, "
                "shard_stats, clear, new_track, add, lookup, find_usable, merge_external(_noblock), merge_owned}, of "
@@ -58,6 +58,7 @@ def _mk_store(vm, P, S, n, classes=(0,)):
     distinct(vm, ids)
     st = Store(P, vm, S, tracks)
     vm.notes['sched'] = EagerSched(st)
+    vm.notes['S'] = S
     return st, ids, tracks
 
 
@@ -82,6 +83,7 @@ def _invariant(vm, st, msg="representation invariant"):
 
 def _mk_sharding(S):
     def q(vm, P):
+        vm.notes['S'] = S
         st, ids, tracks = _mk_store(vm, P, S, 1)
         x = vm.fresh(64, 'id')
         r = vm.exec_fn(_fn(P, 'get_executor'), [st.ref(), x], STORE_ENV)
@@ -453,6 +455,177 @@ def _replay_merge_owned(cex, v, vm):
     return STORE_PRELUDE + MERGE_SWEEP % dict(a=a, b=b, missing=missing, S=vm.notes.get('S', 1), body=OWNED_BODY)
 
 
+MAP_SWEEP = r'''
+use anyhow::{anyhow, Result};
+use similari::store::TrackStore;
+use similari::track::notify::NoopNotifier;
+use similari::track::{
+    LookupRequest, MetricOutput, MetricQuery, Observation, ObservationMetric, ObservationsDb, Track, TrackAttributes,
+    TrackAttributesUpdate, TrackStatus,
+};
+
+// attributes whose status / lookup answer is scripted by `v`: v % 4 = 0 Ready, 1 Pending, 2 Wasted, 3 error
+#[derive(Clone, Debug, PartialEq, Default)]
+struct TA { v: u64 }
+#[derive(Clone)]
+struct Upd(u64);
+impl TrackAttributesUpdate<TA> for Upd { fn apply(&self, a: &mut TA) -> Result<()> { a.v = self.0; Ok(()) } }
+#[derive(Clone)]
+struct Look(u64);
+impl LookupRequest<TA, f32> for Look {
+    fn lookup(&self, a: &TA, _o: &ObservationsDb<f32>, _h: &[u64]) -> bool { (self.0 >> (a.v % 8)) & 1 == 1 }
+}
+impl TrackAttributes<TA, f32> for TA {
+    type Update = Upd;
+    type Lookup = Look;
+    fn compatible(&self, _o: &TA) -> bool { true }
+    fn merge(&mut self, _o: &TA) -> Result<()> { Ok(()) }
+    fn baked(&self, _o: &ObservationsDb<f32>) -> Result<TrackStatus> {
+        match self.v % 4 { 0 => Ok(TrackStatus::Ready), 1 => Ok(TrackStatus::Pending), 2 => Ok(TrackStatus::Wasted), _ => Err(anyhow!("scripted status error")) }
+    }
+}
+#[derive(Clone, Default)]
+struct M;
+impl ObservationMetric<TA, f32> for M {
+    fn metric(&self, _mq: &MetricQuery<'_, TA, f32>) -> MetricOutput<f32> { None }
+    fn optimize(&mut self, _c: u64, _h: &[u64], _a: &mut TA, _o: &mut Vec<Observation<f32>>, _p: usize, _m: bool) -> Result<()> { Ok(()) }
+}
+type T = Track<TA, M, f32, NoopNotifier>;
+type S = TrackStore<TA, M, f32, NoopNotifier>;
+fn mk(id: u64, v: u64) -> T {
+    let mut t = T::new(id, M, TA { v }, NoopNotifier);
+    t.add_observation(0, Some(id as f32), None, None).unwrap();
+    t
+}
+fn status_code(r: &Result<TrackStatus>) -> u64 { match r { Ok(TrackStatus::Ready) => 0, Ok(TrackStatus::Pending) => 1, Ok(TrackStatus::Wasted) => 2, Err(_) => 3 } }
+fn contents(s: &S, shards: usize) -> Vec<(usize, u64, u64)> {
+    // (shard, id, v) of every stored track, read shard by shard
+    let mut out = vec![];
+    for sh in 0..shards { for (id, t) in s.get_store(sh).iter() { out.push((sh, *id, t.get_attributes().v)); } }
+    out.sort();
+    out
+}
+
+#[test]
+fn replay() {
+    let shards: usize = %(S)d;
+    let ids: Vec<u64> = vec![%(ids)s];
+    // ---- add_track / duplicates / placement / statistics / clear
+    for n in 0..=ids.len() {
+        let mut s: S = TrackStore::new(M, TA::default(), NoopNotifier, shards);
+        let mut model: Vec<(u64, u64)> = vec![];
+        for (k, id) in ids.iter().take(n).enumerate() {
+            let r = s.add_track(mk(*id, k as u64));
+            if model.iter().any(|m| m.0 == *id) {
+                assert!(r.is_err(), "a duplicate id must be rejected");
+            } else {
+                assert_eq!(r.unwrap(), *id, "add_track returns the id");
+                model.push((*id, k as u64));
+            }
+            let mut exp: Vec<(usize, u64, u64)> = model.iter().map(|m| ((m.0 % shards as u64) as usize, m.0, m.1)).collect();
+            exp.sort();
+            assert_eq!(contents(&s, shards), exp, "every added track is stored once, in shard id % shards, unchanged");
+            let stats = s.shard_stats();
+            assert_eq!(stats.len(), shards);
+            for sh in 0..shards { assert_eq!(stats[sh], exp.iter().filter(|e| e.0 == sh).count(), "shard_stats = per-shard sizes"); }
+            assert_eq!(s.get_executor(*id as usize), (*id % shards as u64) as usize, "executor = id % shards");
+        }
+        // ---- lookup / find_usable: exactly the tracks satisfying the predicate / not Pending, with their status
+        for mask in [0u64, 1, 2, 5, 0xff] {
+            let mut got: Vec<(u64, u64)> = s.lookup(Look(mask)).iter().map(|(id, st)| (*id, status_code(st))).collect();
+            got.sort();
+            let mut exp: Vec<(u64, u64)> = model.iter().filter(|m| (mask >> (m.1 % 8)) & 1 == 1).map(|m| (m.0, m.1 % 4)).collect();
+            exp.sort();
+            assert_eq!(got, exp, "lookup returns exactly the tracks satisfying the predicate, with their status");
+        }
+        let mut got: Vec<(u64, u64)> = s.find_usable().iter().map(|(id, st)| (*id, status_code(st))).collect();
+        got.sort();
+        let mut exp: Vec<(u64, u64)> = model.iter().filter(|m| m.1 % 4 != 1).map(|m| (m.0, m.1 % 4)).collect();
+        exp.sort();
+        assert_eq!(got, exp, "find_usable returns exactly the non-Pending tracks, with their status");
+        // ---- new_track: builder carries the id and the store's defaults
+        let nt = s.new_track(ids[0]).observation((0u64, Some(1.0f32), None, None)).build().unwrap();
+        assert_eq!(nt.get_track_id(), ids[0]);
+        assert_eq!(nt.get_attributes(), &TA::default());
+        // ---- add() on an existing id = add_observation on that track, everything else untouched
+        if let Some(m0) = model.first().cloned() {
+            let before = contents(&s, shards);
+            s.add(m0.0, 3, Some(7.0), None, Some(Upd(m0.1 + 8))).unwrap();
+            let mut exp = before.clone();
+            for e in exp.iter_mut() { if e.1 == m0.0 { e.2 = m0.1 + 8; } }
+            assert_eq!(contents(&s, shards), exp, "add() on an existing id updates only that track");
+            assert_eq!(s.get_store(m0.0 as usize).get(&m0.0).unwrap().get_observations(3).map(|o| o.len()), Some(1), "the observation was added");
+            s.add(m0.0, 3, None, None, Some(Upd(m0.1))).unwrap();
+        }
+        // ---- fetch_tracks: removes and returns exactly the requested existing tracks, in request order
+        let probes: Vec<u64> = ids.iter().cloned().chain([%(missing)du64]).collect();
+        for x in &probes { for y in &probes {
+            let mut s2: S = TrackStore::new(M, TA::default(), NoopNotifier, shards);
+            for m in &model { s2.add_track(mk(m.0, m.1)).unwrap(); }
+            let got: Vec<u64> = s2.fetch_tracks(&[*x, *y]).iter().map(|t| t.get_track_id()).collect();
+            let mut exp: Vec<u64> = vec![];
+            for q in [*x, *y] { if model.iter().any(|m| m.0 == q) && !exp.contains(&q) { exp.push(q); } }
+            assert_eq!(got, exp, "fetch_tracks returns exactly the requested existing tracks in request order");
+            let mut left: Vec<u64> = contents(&s2, shards).iter().map(|e| e.1).collect();
+            left.sort();
+            let mut exp_left: Vec<u64> = model.iter().map(|m| m.0).filter(|i| !exp.contains(i)).collect();
+            exp_left.sort();
+            assert_eq!(left, exp_left, "fetch_tracks removes exactly the returned tracks");
+            assert_eq!(s2.shard_stats().iter().sum::<usize>(), exp_left.len());
+        } }
+        s.clear();
+        assert!(s.shard_stats().iter().all(|c| *c == 0), "clear empties every shard");
+    }
+}
+'''
+
+
+def _replay_map_ops(cex, v, vm):
+    ids = []
+    for k, val in cex["inputs"].items():
+        nm = k.split('!')[0]
+        if (nm.endswith('_id') or nm.startswith(('id', 'req', 'new', 'probe'))) and isinstance(val, int):
+            ids.append(val)
+    ids = (ids or [5])[:4]
+    missing = 77
+    while missing in ids:
+        missing += 1
+    S = vm.notes.get('S') or 1
+    return (MAP_SWEEP.replace("%(S)d", str(S)).replace("%(ids)s", ", ".join("%du64" % i for i in ids)).replace("%(missing)d", str(missing)))
+
+
+def _replay_add_existing(cex, v, vm):
+    n = vm.notes
+    return STORE_PRELUDE + '''
+#[test]
+fn replay() {
+    // add() on a stored id vs. the same add_observation on a copy of the track, for every fault position
+    for fail_at in -1i64..4 {
+        let notif = Notif::default();
+        let mut store = mk_store(%(S)d, &notif);
+        store.add_track(build(5, &[0u64], &notif)).unwrap();
+        store.add_track(build(6, &[0u64], &notif)).unwrap();
+        let mut reference = store.get_store(5).get(&5).unwrap().clone();
+        let other_before = snapshot(store.get_store(6).get(&6).unwrap(), &[0u64, 7u64]);
+        CALLS.store(0, Ordering::SeqCst);
+        FAIL_AT.store(fail_at, Ordering::SeqCst);
+        let r1 = reference.add_observation(%(cls)d, %(attrs)s, %(feat)s, %(upd)s);
+        let ref_calls = CALLS.load(Ordering::SeqCst);
+        CALLS.store(0, Ordering::SeqCst);
+        FAIL_AT.store(fail_at, Ordering::SeqCst);
+        let r2 = store.add(5, %(cls)d, %(attrs)s, %(feat)s, %(upd)s);
+        FAIL_AT.store(-1, Ordering::SeqCst);
+        assert_eq!(r1.is_ok(), r2.is_ok(), "add() on an existing id succeeds exactly when add_observation does (fault position {})", fail_at);
+        assert_eq!(CALLS.load(Ordering::SeqCst), ref_calls, "same callbacks (fault position {})", fail_at);
+        assert_eq!(snapshot(store.get_store(5).get(&5).unwrap(), &[0u64, 7u64]), snapshot(&reference, &[0u64, 7u64]), "same resulting track (fault position {})", fail_at);
+        assert_eq!(snapshot(store.get_store(6).get(&6).unwrap(), &[0u64, 7u64]), other_before, "other tracks untouched");
+        assert_eq!(store.shard_stats().iter().sum::<usize>(), 2);
+    }
+}
+''' % dict(S=n.get('S', 1), cls=n['cls'], attrs="Some(5.0f32)" if n['attrs_given'] else "None", feat="Some(vec![])" if n['feat_given'] else "None",
+           upd="Some(Upd)" if n['upd_given'] else "None")
+
+
 def _replay_future_get(cex, v, vm):
     return _replay_merge_external(cex, v, vm)
 
@@ -503,25 +676,25 @@ fn replay() {
 TS = "similari::track::store::TrackStore::"
 W = TS + "handle_store_ops"
 MIR = [
-    MQ("c09_sharding_1", "quick", _mk_sharding(1), "get_store / get_executor select shard id % shards", "1 shard, symbolic id", [TS + "get_store", TS + "get_executor"]),
-    MQ("c09_sharding_2", "quick", _mk_sharding(2), "get_store / get_executor select shard id % shards", "2 shards, symbolic id", [TS + "get_store", TS + "get_executor"]),
-    MQ("c09_sharding_3", "quick", _mk_sharding(3), "get_store / get_executor select shard id % shards", "3 shards, symbolic id", [TS + "get_store", TS + "get_executor"]),
+    MQ("c09_sharding_1", "quick", _mk_sharding(1), "get_store / get_executor select shard id % shards", "1 shard, symbolic id", [TS + "get_store", TS + "get_executor"], replay=_replay_map_ops),
+    MQ("c09_sharding_2", "quick", _mk_sharding(2), "get_store / get_executor select shard id % shards", "2 shards, symbolic id", [TS + "get_store", TS + "get_executor"], replay=_replay_map_ops),
+    MQ("c09_sharding_3", "quick", _mk_sharding(3), "get_store / get_executor select shard id % shards", "3 shards, symbolic id", [TS + "get_store", TS + "get_executor"], replay=_replay_map_ops),
     MQ("c09_future_get", "quick", q_future_get, "FutureMergeResponse::get surfaces the worker's MergeResult", "Ok / Err result queued",
        ["similari::track::store::FutureMergeResponse::get"], replay=_replay_future_get, key='future-get-drops-merge-result'),
-    MQ("c09_new_track", "quick", q_new_track, "new_track clones the store's metric, default attributes and notifier into the builder", "symbolic id", [TS + "new_track"]),
+    MQ("c09_new_track", "quick", q_new_track, "new_track clones the store's metric, default attributes and notifier into the builder", "symbolic id", [TS + "new_track"], replay=_replay_map_ops),
 ]
 for S, n, tier in [(1, 2, 'quick'), (2, 2, 'quick'), (3, 2, 'thorough'), (2, 3, 'thorough')]:
     MIR += [
         MQ("c09_add_track_%d_%d" % (S, n), tier, _mk_add_track(S, n), "add_track inserts a fresh id into shard id%shards, rejects duplicates without change",
-           "%d shards, %d stored tracks + 1 new (symbolic ids, possibly equal)" % (S, n), [TS + "add_track", TS + "get_store"]),
+           "%d shards, %d stored tracks + 1 new (symbolic ids, possibly equal)" % (S, n), [TS + "add_track", TS + "get_store"], replay=_replay_map_ops),
         MQ("c09_fetch_%d_%d" % (S, n), tier, _mk_fetch(S, n, 2), "fetch_tracks removes and returns exactly the requested existing tracks in request order",
-           "%d shards, %d stored tracks, 2 requested symbolic ids (duplicates / missing allowed)" % (S, n), [TS + "fetch_tracks"]),
+           "%d shards, %d stored tracks, 2 requested symbolic ids (duplicates / missing allowed)" % (S, n), [TS + "fetch_tracks"], replay=_replay_map_ops),
         MQ("c09_stats_clear_%d_%d" % (S, n), tier, _mk_stats_clear(S, n), "shard_stats = per-shard sizes summing to the number of tracks; clear empties all",
-           "%d shards, %d stored tracks" % (S, n), [TS + "shard_stats", TS + "clear"]),
+           "%d shards, %d stored tracks" % (S, n), [TS + "shard_stats", TS + "clear"], replay=_replay_map_ops),
         MQ("c09_lookup_%d_%d" % (S, n), tier, _mk_scan(S, n, 'lookup'), "lookup returns exactly the tracks satisfying the predicate with their status",
-           "%d shards, %d stored tracks, arbitrary predicate/status per track" % (S, n), [TS + "lookup", W], spec_calls=_status_calls),
+           "%d shards, %d stored tracks, arbitrary predicate/status per track" % (S, n), [TS + "lookup", W], spec_calls=_status_calls, replay=_replay_map_ops),
         MQ("c09_find_usable_%d_%d" % (S, n), tier, _mk_scan(S, n, 'find_usable'), "find_usable returns exactly the non-Pending tracks with their status",
-           "%d shards, %d stored tracks, arbitrary status per track" % (S, n), [TS + "find_usable", W], spec_calls=_status_calls),
+           "%d shards, %d stored tracks, arbitrary status per track" % (S, n), [TS + "find_usable", W], spec_calls=_status_calls, replay=_replay_map_ops),
         MQ("c09_merge_external_%d_%d" % (S, n), tier, _mk_merge_external(S, n),
            "merge_external changes only the destination and reports failure for a missing destination, the same track, or a failed merge",
            "%d shards, %d stored tracks, symbolic destination id / source id, every fault position" % (S, n),
@@ -537,7 +710,7 @@ for S in (1, 2):
     MIR += [
         MQ("c09_add_existing_%d" % S, "quick", _mk_add(S, True), "add() on an existing id behaves exactly as Track::add_observation",
            "%d shards, class present/absent, attrs/feature/update given or not, every fault position" % S, [TS + "add", "similari::track::Track::add_observation"],
-           spec_calls=track_callbacks),
+           spec_calls=track_callbacks, replay=_replay_add_existing),
         MQ("c09_add_missing_%d" % S, "quick", _mk_add(S, False), "add() on a missing id creates the track exactly as builder + add_track would",
            "%d shards, attrs/feature/update given or not, every fault position" % S,
            [TS + "add", TS + "new_track", "similari::track::builder::TrackBuilder::build", "similari::track::Track::new"],
